@@ -7,6 +7,7 @@ from ..world import World
 from ..script import Exec
 from ..gen import Driver, PROFILES, intents_strategy, script_hash
 from ..canon import Canon, script_literals
+from ..known import KnownFindingHit, check_known
 
 
 class Obs(object):
@@ -21,13 +22,15 @@ class Obs(object):
         self.ticks = [(tk.t, tk.after, tk.uafter) for tk in st.ticks]
 
 
-def run_script(cfg, script, uid=None, on_step=None):
+def run_script(cfg, script, uid=None, on_step=None, known=False):
     """Execute a concrete script on a fresh world; return the observations."""
     out = []
     with World(cfg, uid=uid) as w:
         ex = Exec(w)
         for op in script:
             st = ex.run_op(op)
+            if known:
+                check_known(st)
             out.append(Obs(st))
             if on_step:
                 on_step(w, st)
@@ -76,6 +79,10 @@ def frames_by_conn(obs_list, canon, start=0, conns=None, drop_types=()):
     return per
 
 
+def jhash_none():
+    return "known-finding-hit-during-generation"
+
+
 def first_diff(a, b):
     """Human-readable first difference of two canonical structures."""
     if type(a) != type(b):
@@ -112,11 +119,18 @@ class DiffCheck(HistoryCheck):
     def execute(self, x, stats, tier):
         intents, cfg = x
         b = self.budgets(tier)
-        script, pobs, counters, _ = generate(self.primary_cfg(cfg), self.make_profile(cfg), intents, b["max_ops"] * 2)
+        try:
+            script, pobs, counters, _ = generate(self.primary_cfg(cfg), self.make_profile(cfg), intents, b["max_ops"] * 2)
+        except KnownFindingHit as k:
+            stats.case(jhash_none(), False, {"known_%s_hit" % k.fid: 1})
+            return
         classes = {"gen_" + k: v for k, v in counters.items()}
         classes["profile_" + cfg.get("profile", self.profile)] = 1
         try:
             nt = self.judge(cfg, script, classes)
+        except KnownFindingHit as k:
+            stats.case(script_hash([cfg, script]), False, {"known_%s_hit" % k.fid: 1})
+            return
         except Violation as v:
             v.payload = {"property": self.id, "cfg": cfg, "script": script}
             raise
@@ -127,6 +141,8 @@ class DiffCheck(HistoryCheck):
         classes = {}
         try:
             nt = self.judge(cfg, script, classes)
+        except KnownFindingHit:
+            return
         except Violation as v:
             v.payload = {"property": self.id, "cfg": cfg, "script": script}
             raise
